@@ -598,18 +598,22 @@ func ConvertSliceValueType(destTyp reflect.Type, v reflect.Value) (reflect.Value
 	return sl, nil
 }
 
+var errNoField = errors.New("no such field")
+
 func findField(name string, typ reflect.Type) (int, error) {
+	// (the capitalised form is made once and only for a name that can be a Go field name at all:
+	// a wire field name is input, its length must not be paid once per Go field and instance)
+	str1 := name
+	if len(name) <= 1024 {
+		str1 = capitalizeName(name)
+	}
 	for i := 0; i < typ.NumField(); i++ {
 		str := typ.Field(i).Name
-		if strings.Compare(str, name) == 0 {
-			return i, nil
-		}
-		str1 := capitalizeName(name)
-		if strings.Compare(str, str1) == 0 {
+		if str == name || str == str1 {
 			return i, nil
 		}
 	}
-	return 0, errors.New("no field " + name)
+	return 0, errNoField
 }
 
 // SetValue set the value to dest.
